@@ -33,6 +33,15 @@ macro_rules! unit_ok {
     }};
 }
 
+macro_rules! unit_ok_derived {
+    ($t:ty $(, $f:ty)*) => {{
+        unit_ok!($t $(, $f)*);
+        let u = <$t as MaxSizeOf>::max_size_of();
+        assert!(pow2(u) && u >= align_of::<$t>(), "[C05/unit] the derived alignment unit is a power of two no smaller than the native alignment");
+        $( assert!(u >= <$f as MaxSizeOf>::max_size_of(), "[C05/unit.fields] the derived alignment unit is no smaller than the unit of any field"); )*
+    }};
+}
+
 // @h units_builtin props=C07 tier=quick kind=complete vars="closed terms: every primitive, non-zero, bool, char, (), PhantomData, RangeFull, RangeTo*, arrays, tuples" fns="impls/prim.rs:MaxSizeOf,impls/array.rs:MaxSizeOf,impls/tuple.rs:MaxSizeOf,impls/stdlib.rs:MaxSizeOf"
 #[kani::proof]
 pub fn units_builtin() {
@@ -50,12 +59,12 @@ pub fn units_builtin() {
 // @h units_derived props=C07,C05 tier=quick kind=complete vars="closed terms: Z8, Z32, ZT, ZU<3>, ZE (zero-copy enum), nm::base::Z, nm::repr::Z (derive output)" fns="derive:MaxSizeOf"
 #[kani::proof]
 pub fn units_derived() {
-    unit_ok!(Z8, u32, u16);
-    unit_ok!(Z32, u128, u64);
-    unit_ok!(ZT, Z8, [u16; 2]);
-    unit_ok!(ZU<3>);
-    unit_ok!([Z32; 2], Z32);
-    unit_ok!(ZE, u8, u16, bool);
-    unit_ok!(crate::nm::base::Z, u32, u16);
-    unit_ok!(crate::nm::repr::Z, u32, u16);
+    unit_ok_derived!(Z8, u32, u16);
+    unit_ok_derived!(Z32, u128, u64);
+    unit_ok_derived!(ZT, Z8, [u16; 2]);
+    unit_ok_derived!(ZU<3>);
+    unit_ok_derived!([Z32; 2], Z32);
+    unit_ok_derived!(ZE, u8, u16, bool);
+    unit_ok_derived!(crate::nm::base::Z, u32, u16);
+    unit_ok_derived!(crate::nm::repr::Z, u32, u16);
 }
